@@ -25,8 +25,8 @@ add("C05", "exploration", EXPL,
     "Virtual-clock exploration of deadline classes against replies placed at D-2..D+1 ms, queueing delays and stalls; checks never-early, not-late (2 ms slack) and reply-before-deadline-wins.",
     "Timer granularity 1 ms modelled as 2 ms slack; clock read through hook H1.", "DESIGN.md §5 C05")
 
-add("C03", "exploration", EXPL,
-    "Seeded exploration of abandonment at every suspension point of a call (before first poll, after k polls, at a time, request on the wire, reply queued, reply read) against capacity/buffer 1-3 and stalled sinks, with preemption inside the call guard's Drop (hook H2); per-id sink sequence in {eps, R, R.C} and the cancel obligation at every writable idle point.",
+add("C03", "fault_enumeration", "deterministic simulation: abandonment (crash of the caller) enumerated at every suspension point of every call of seeded scenarios, plus seeded search over schedules",
+    "Enumeration plus seeded exploration of abandonment at every suspension point of a call (before first poll, after k polls, at a time, request on the wire, reply queued, reply read) against capacity/buffer 1-3 and stalled sinks, with preemption inside the call guard's Drop (hook H2); per-id sink sequence in {eps, R, R.C} and the cancel obligation at every writable idle point.",
     "Cancel obligations are evaluated at idle points (quiescence with the clock frozen), not at poll ends, so tokio's cooperative-budget yields cannot raise alarms.", "DESIGN.md §5 C03")
 add("C04", "exploration", EXPL,
     "Seeded exploration of the Cancel's position relative to handler start, completion, response buffering and write on the real BaseChannel/Requests/execute path with scripted handlers that log every poll and their drop; checks no progress / no response / not counted after a cancel and that unrelated cancels abort nothing. (Chains of services: see P-e2e in DESIGN.md.)",
@@ -37,9 +37,9 @@ add("C06", "exploration", EXPL,
 add("C08", "exploration", EXPL,
     "Seeded exploration with a scripted peer sending fresh ids, duplicates while in flight, ids reused after their response, cancels and close against the real channel; counts handler offers and responses per incarnation with an interval (definitely/possibly tracked) model.",
     "Id reuse after cancel/expiry with a still-buffered response is outside the property's quantifier and excluded from response attribution.", "DESIGN.md §5 C08")
-add("C10", "exploration", EXPL,
-    "Every client run ends by dropping the last handle (and a share of runs do it, or a peer EOF, mid-run): cancels owed must precede the first poll_close, nothing is written after it, the dispatch returns Ok; on peer EOF dispatch and calls end within the same idle window. Every server run ends with inbound EOF: the stream may not end while a request is in flight or a response unflushed, and must end at the first idle point after.",
-    "Exploration over seeded drop/EOF points, not enumeration of every point.", "DESIGN.md §5 C10")
+add("C10", "fault_enumeration", "deterministic simulation: end-of-stream enumerated at every read of a fault-free run (client and server side), handle drop / half-close at seeded points, seeded schedules",
+    "End-of-stream is substituted for every k-th read of fault-free seeded scenarios (peer close on the client, half-close on the server). Every client run ends by dropping the last handle (and a share of runs do it, or a peer EOF, mid-run): cancels owed must precede the first poll_close, nothing is written after it, the dispatch returns Ok; on peer EOF dispatch and calls end within the same idle window. Every server run ends with inbound EOF: the stream may not end while a request is in flight or a response unflushed, and must end at the first idle point after.",
+    "EOF positions are enumerated per read operation (first 16 in the quick tier, 80 in the thorough tier); handle drops are at seeded times and at the end of every run.", "DESIGN.md §5 C10")
 add("C11", "exploration", EXPL,
     "In-flight and timer counts (hook H3) sampled after every dispatch / request-stream poll: client never above max_in_flight (also derived from the wire), server count within the interval model at every sample, and zero entries and zero timers at every idle point where all calls / yielded requests have ended, with the clock stopped.",
     "Server-side consequences of the known C06 finding (limit + not-ready sink) are listed as known findings.", "DESIGN.md §5 C11")
